@@ -890,6 +890,15 @@ impl World {
             if buflen < predicted {
                 whys.push(Why::ShortBuf);
             }
+        } else {
+            // an out-of-phase call whose arguments are also unusable has two independent,
+            // documented causes of failure; either error may be reported
+            if payload.len() + TAGLEN > MAXMSG {
+                whys.push(Why::Oversize);
+            }
+            if buflen < payload.len() + TAGLEN {
+                whys.push(Why::ShortBuf);
+            }
         }
         let dontcare = state_ok && !payload_enc && buflen >= predicted && buflen < predicted + TAGLEN;
         if !whys.is_empty() || dontcare {
